@@ -659,7 +659,12 @@ int main(int argc, char** argv)
         return 2;
     }
     long before = vh::live_count();
+    bool mark = std::getenv("VH_MARK") != nullptr;
     for (auto const& c : vh::read_ndjson(argv[2])) {
+        if (c.contains("reset")) { // case boundary (resilient replay: a death is attributed to the case in flight)
+            if (mark) { vh::emit(json{{"op", "reset"}}); }
+            continue;
+        }
         std::string f = c["f"].get<std::string>();
         if (f == "align") { run_align(c); }
         else if (f == "ident") { run_ident(c); }
